@@ -136,6 +136,10 @@ func BatchIsValidMaps(
 				return err
 			}
 
+			if m.Manifest().Height() != height {
+				return util.ErrInvalid.Errorf("different height BlockMap found, %d != %d", m.Manifest().Height(), height)
+			}
+
 			if err := func() error {
 				validateLock.Lock()
 				defer validateLock.Unlock()
